@@ -2,12 +2,12 @@ SPECIFICATION Spec
 CONSTANTS
   Threads = {t1, t2}
   Keys = {k1}
-  Ranges <- MCRanges
+  Ranges <- MCRanges1
   Capacity = 4
-  FixDrift = FALSE
-  WithEnv = FALSE
+  FixDrift = TRUE
+  WithEnv = TRUE
   FsExact = TRUE
-  EarlyVerify = FALSE
+  EarlyVerify = TRUE
   ILen <- MCILen
 INVARIANT Invs
 CHECK_DEADLOCK FALSE
